@@ -56,6 +56,10 @@ def gen_target(rng, ctl=False):
     for _ in range(rng.choice([0, 0, 1, 1, 2])):
         q += b"?" + gen_segment(rng, ctl).replace(b"#", b"")
     f = b"#" + gen_segment(rng, ctl).replace(b"#", b"") if rng.random() < 0.15 else b""
+    if rng.random() < 0.08:
+        # a fragment that starts before any '?': everything after the first '#' is fragment, also a later '?'
+        f = b"#" + gen_segment(rng, ctl).replace(b"#", b"") + rng.choice([b"", b"?x=1", b"?", b"#t?u"])
+        q = b"" if rng.random() < 0.7 else q
     if form == "absolute":
         host = rng.choice([b"example.org", b"h:8080", b"127.0.0.1:1", b"EXAMPLE.org"])
         scheme = rng.choice([b"http", b"https", b"HTTP"])
@@ -78,7 +82,10 @@ def gen_headers(rng):
     for _ in range(rng.randint(0, 8)):
         n = rng.choice(HNAMES)
         v = rng.choice([b"v%d" % rng.randrange(1000), b"", b"caf\xe9", b"a, b", b"a,b", b"  padded  ", b"\ttab\t",
-                        b"\xff\x80", b"x" * 200, b"text/plain; charset=utf-8", b"a=b; c=d", b"\"q\""])
+                        b"\xff\x80", b"x" * 200, b"text/plain; charset=utf-8", b"a=b; c=d", b"\"q\"",
+                        # bytes that str.strip() / str.split() treat as white space but HTTP does not
+                        b"Bogot\xc3\xa0", b"\xa0nbsp\xa0", b"next\x85", b"\x0bvt\x0c", b"fs\x1c", b"\x1fus", b"a\x0bb",
+                        b"\xd0\xa0\xd0\xa0", b"\x85"])
         hdrs.append([n, v])
     return hdrs
 
